@@ -108,9 +108,9 @@ theorem applyAll_perm_err_same (mt : Str → Str → Bool) (g : PGraph Str) (rul
 /-! ### the aggregation step of the PlantUML parser -/
 
 theorem pumlParse_eq (content : Str) :
-    pumlParse content = (pumlBody (pyStrip content)).map fun body =>
-      pumlAggregate ((splitLines body).flatMap lineModules) ((splitLines body).filterMap lineDependency) := by
-  unfold pumlParse pumlAggregate
+    pumlParse content = (pumlBody (pyStrip content)).bind fun body =>
+      pumlUnify ((splitLines body).flatMap lineModules) ((splitLines body).filterMap lineDependency) := by
+  unfold pumlParse pumlUnify pumlAggregate
   cases pumlBody (pyStrip content) <;> rfl
 
 /-- `k ↦ v` is recorded in the insertion-ordered dict -/
@@ -355,5 +355,72 @@ theorem lines_perm {lines lines' : List Str} (h : lines.Perm lines') :
     (lines.flatMap lineModules).Perm (lines'.flatMap lineModules) ∧
     (lines.filterMap lineDependency).Perm (lines'.filterMap lineDependency) :=
   ⟨h.flatMap_right _, h.filterMap _⟩
+
+/-- the alias check of `_get_modules_by_alias` looks at the SET of declarations only -/
+theorem aliasesConsistent_congr {modules modules' : List PModule} (h : ∀ m, m ∈ modules ↔ m ∈ modules') :
+    aliasesConsistent modules = aliasesConsistent modules' := by
+  unfold aliasesConsistent
+  rw [Bool.eq_iff_iff]
+  simp only [List.all_eq_true]
+  constructor
+  · intro hc m1 h1 m2 h2; exact hc m1 ((h m1).2 h1) m2 ((h m2).2 h2)
+  · intro hc m1 h1 m2 h2; exact hc m1 ((h m1).1 h1) m2 ((h m2).1 h2)
+
+theorem aliasesConsistent_perm {modules modules' : List PModule} (hp : modules.Perm modules') :
+    aliasesConsistent modules = aliasesConsistent modules' :=
+  aliasesConsistent_congr fun _ => hp.mem_iff
+
+/-- check + aggregation (`_unify`) does not depend on the order of the per-line results — no side condition: either
+    both orders are rejected with the parsing error or both succeed with the same module set and dependency relation -/
+theorem unify_perm (modules modules' : List PModule) (rawDeps rawDeps' : List (Str × Str))
+    (hm : modules.Perm modules') (hd : rawDeps.Perm rawDeps') :
+    SameDiagram (pumlUnify modules rawDeps) (pumlUnify modules' rawDeps') := by
+  have hcc := aliasesConsistent_perm hm
+  unfold pumlUnify
+  cases hc : aliasesConsistent modules with
+  | true =>
+    rw [← hcc, hc]
+    exact aggregate_perm modules modules' rawDeps rawDeps' hm hd hc
+  | false =>
+    rw [← hcc, hc]
+    exact ⟨rfl, rfl⟩
+
+/-- the outcomes, explicitly -/
+theorem sameDiagram_iff (x y : Except ErrKind Parsed') :
+    SameDiagram x y ↔ (x = .error .pumlParsingError ∧ y = .error .pumlParsingError) ∨
+      ∃ p q, x = .ok p ∧ y = .ok q ∧ (∀ m, m ∈ p.modules ↔ m ∈ q.modules) ∧ (∀ k v, p.hasDep k v = q.hasDep k v) := by
+  cases x with
+  | error e =>
+    cases y with
+    | error e' =>
+      constructor
+      · rintro ⟨rfl, rfl⟩; exact .inl ⟨rfl, rfl⟩
+      · rintro (⟨h1, h2⟩ | ⟨p, q, h, _⟩)
+        · cases h1; cases h2; exact ⟨rfl, rfl⟩
+        · cases h
+    | ok q =>
+      constructor
+      · intro h; exact h.elim
+      · rintro (⟨_, h⟩ | ⟨p, q, h, _⟩) <;> cases h
+  | ok p =>
+    cases y with
+    | error e' =>
+      constructor
+      · intro h; exact h.elim
+      · rintro (⟨h, _⟩ | ⟨p, q, _, h, _⟩) <;> cases h
+    | ok q =>
+      constructor
+      · intro h; exact .inr ⟨p, q, rfl, rfl, h⟩
+      · rintro (⟨h, _⟩ | ⟨p', q', h1, h2, h⟩)
+        · cases h
+        · cases h1; cases h2; exact h
+
+/-- two texts with fine tags whose bodies consist of the same lines in a different order parse alike -/
+theorem parse_perm (content content' body body' : Str)
+    (hb : pumlBody (pyStrip content) = .ok body) (hb' : pumlBody (pyStrip content') = .ok body')
+    (h : (splitLines body).Perm (splitLines body')) :
+    SameDiagram (pumlParse content) (pumlParse content') := by
+  rw [pumlParse_eq, pumlParse_eq, hb, hb']
+  exact unify_perm _ _ _ _ (lines_perm h).1 (lines_perm h).2
 
 end Pta.OrdD
